@@ -263,7 +263,9 @@ func c05Mutations(orig *merkle.Proof, root, key, value []byte, exist bool, other
 			for i := range ms.Proof.StoreInfos {
 				i := i
 				nm := ms.Proof.StoreInfos[i].Name
-				add("multistore:hash-flip@"+nm, reenc(func(p *rootmulti.MultiStoreProof) { p.StoreInfos[i].Core.CommitID.Hash = flipAt(p.StoreInfos[i].Core.CommitID.Hash, 3) }), root, key, "acc", value, exist)
+				add("multistore:hash-flip@"+nm, reenc(func(p *rootmulti.MultiStoreProof) {
+					p.StoreInfos[i].Core.CommitID.Hash = flipAt(p.StoreInfos[i].Core.CommitID.Hash, 3)
+				}), root, key, "acc", value, exist)
 				add("multistore:version+1@"+nm, reenc(func(p *rootmulti.MultiStoreProof) { p.StoreInfos[i].Core.CommitID.Version++ }), root, key, "acc", value, exist)
 				add("multistore:drop@"+nm, reenc(func(p *rootmulti.MultiStoreProof) { p.StoreInfos = append(p.StoreInfos[:i:i], p.StoreInfos[i+1:]...) }), root, key, "acc", value, exist)
 				add("multistore:rename@"+nm, reenc(func(p *rootmulti.MultiStoreProof) { p.StoreInfos[i].Name += "x" }), root, key, "acc", value, exist)
